@@ -35,11 +35,11 @@ def spec_atoms(spec: Dict) -> List[str]:
     return out
 
 
-def _slot_value(s, values: Optional[Dict[str, Fraction]]):
+def _slot_value(s, values: Optional[Dict[str, Fraction]], unsigned: bool = False):
     if isinstance(s, str):
         if values is None:
             return Sym.atom(s)
-        return values[s]
+        return abs(values[s]) if unsigned else values[s]
     if values is None:
         return Sym.const(s)
     return s
@@ -89,7 +89,8 @@ def build_operand(spec: Dict, values: Optional[Dict[str, Fraction]] = None):
     kind = spec.get("kind", "poly")
     shape = tuple(spec.get("shape", ()))
     if kind == "poly":
-        cols = [[_slot_value(s, values) for s in col] for col in spec["slots"]]
+        uns = bool(spec.get("unsigned")) and values is not None
+        cols = [[(abs(_slot_value(s, values, uns)) if uns else _slot_value(s, values)) for s in col] for col in spec["slots"]]
         if values is None:
             dt: Any = object
             arrs = [oarray(col, shape) for col in cols]
@@ -129,7 +130,8 @@ def model_operand(spec: Dict, values: Optional[Dict[str, Fraction]] = None) -> n
     kind = spec.get("kind", "poly")
     shape = tuple(spec.get("shape", ()))
     if kind == "poly":
-        cols = [[_slot_value(s, values) for s in col] for col in spec["slots"]]
+        uns = bool(spec.get("unsigned")) and values is not None
+        cols = [[(abs(_slot_value(s, values, uns)) if uns else _slot_value(s, values)) for s in col] for col in spec["slots"]]
         return apply_view(M.from_attributes(spec["exps"], [oarray(col, shape) for col in cols], tuple(spec["names"]), shape), spec.get("view"))
     vals = [_slot_value(s, values) for s in spec["slots"]]
     return M.mp_array([M.MP.const(v) for v in vals], shape)
@@ -140,7 +142,7 @@ def model_operand(spec: Dict, values: Optional[Dict[str, Fraction]] = None) -> n
 # --------------------------------------------------------------------------------------
 
 SHAPES_ALL = [(), (1,), (2,), (3,), (1, 2), (2, 1), (2, 2), (2, 1, 2), (1, 2, 2), (2, 2, 2)]
-NAME_SETS = [("q0",), ("q1",), ("q0", "q1"), ("q0", "q2"), ("q2", "q10"), ("q10",), ("q0", "q1", "q2")]
+NAME_SETS = [("q0",), ("q1",), ("q0", "q1"), ("q0", "q2"), ("q2", "q10"), ("q10",), ("q0", "q1", "q2"), ("q1", "q0"), ("q2", "q0"), ("q10", "q2", "q0")]
 
 
 def size_of(shape) -> int:
